@@ -56,7 +56,7 @@ def near_int(x):
 # and the element left unchanged near the edges when it is off"
 
 import statistics
-from spec.prims import forall, exists, pairwise, adjacent, strip, is_sorted, subset
+from spec.prims import forall, exists, pairwise, adjacent, strip, is_sorted, subset, first_index
 
 
 def medianFilter(dist, window, useEdgePadding):
@@ -130,3 +130,52 @@ def gap_then(a, b, blankLabel):
     if a[1] < b[0]:
         return [(a[1], b[0], blankLabel), b]
     return [b]
+
+
+# ---- C18: zero crossings in a block of samples ("the sample there is zero or differs in sign from a neighbour")
+
+
+def sgn(x):
+    return 1 if x > 0 else (-1 if x < 0 else 0)
+
+
+def nearest_zero(samples, reverse):
+    """index of the first (last when searching backwards) sample that is exactly 0, else None"""
+    n = len(samples)
+    if reverse:
+        k = first_index(samples[::-1], lambda x: x == 0)
+        return None if k < 0 else n - 1 - k
+    i = first_index(samples, lambda x: x == 0)
+    return None if i < 0 else i
+
+
+def sign_changes(samples):
+    """changes[i] <=> samples[i] and samples[i+1] differ in sign (0 counts as a sign of its own)"""
+    return [sgn(samples[i]) != sgn(samples[i + 1]) for i in range(len(samples) - 1)]
+
+
+def threshold_crossing(samples, reverse):
+    """the first (last) position i where samples[i] and samples[i+1] differ in sign; of the two samples the one nearer
+    to zero (the earlier one when equally near); None if there is no sign change"""
+    changes = sign_changes(samples)
+    if reverse:
+        k = first_index(changes[::-1], lambda c: c)
+        if k < 0:
+            return None
+        i = len(changes) - 1 - k
+    else:
+        i = first_index(changes, lambda c: c)
+        if i < 0:
+            return None
+    if abs(samples[i]) > abs(samples[i + 1]):
+        return i + 1
+    return i
+
+
+def next_zero_crossing(startTime, samples, frameRate, reverse):
+    z = nearest_zero(samples, reverse)
+    if z is None:
+        z = threshold_crossing(samples, reverse)
+        if z is None:
+            return None
+    return startTime + z / float(frameRate)
